@@ -284,6 +284,27 @@ func stressBulkhead(seed int64, scale int) int {
 				time.Sleep(300 * time.Microsecond)
 			}
 		}
+		// standalone callers blocked on a full bulkhead and cancelled there must not disturb the holders
+		for i := 0; i < 4; i++ {
+			wg.Add(1)
+			go func() {
+				defer wg.Done()
+				ctx, cancel := context.WithTimeout(context.Background(), time.Duration(100+rng.Intn(300))*time.Microsecond)
+				defer cancel()
+				if bh.AcquirePermit(ctx) == nil {
+					c := inflight.Add(1)
+					for {
+						m := maxIn.Load()
+						if c <= m || maxIn.CompareAndSwap(m, c) {
+							break
+						}
+					}
+					time.Sleep(200 * time.Microsecond)
+					inflight.Add(-1)
+					bh.ReleasePermit()
+				}
+			}()
+		}
 		wg.Wait()
 		time.Sleep(time.Millisecond) // cancelled hedge attempts release asynchronously
 		if int(maxIn.Load())+ext > cap {
@@ -386,13 +407,23 @@ func stressBreaker(seed int64, scale int) int {
 			i := i
 			go func() {
 				defer wg.Done()
-				_, err := failsafe.NewExecutor[int](cb).GetWithExecution(func(failsafe.Execution[int]) (int, error) {
+				ps := []failsafe.Policy[int]{cb}
+				cancelledTrial := i%3 == 2
+				if cancelledTrial { // this trial is cut short by an enclosing Timeout while it holds its permit
+					ps = []failsafe.Policy[int]{timeout.With[int](200 * time.Microsecond), cb}
+				}
+				_, err := failsafe.NewExecutor[int](ps...).GetWithExecution(func(e failsafe.Execution[int]) (int, error) {
 					c := running.Add(1)
 					for {
 						mx := maxRunning.Load()
 						if c <= mx || maxRunning.CompareAndSwap(mx, c) {
 							break
 						}
+					}
+					if cancelledTrial {
+						<-e.Canceled()
+						running.Add(-1)
+						return 0, errX
 					}
 					<-gate3
 					running.Add(-1)
@@ -601,7 +632,7 @@ func stressCancel(seed int64, scale int) int {
 			defer wg.Done()
 			rng := rand.New(rand.NewSource(s))
 			for i := 0; i < per; i++ {
-				stack := rng.Intn(7)
+				stack := rng.Intn(8)
 				source := rng.Intn(4) // 0 ctx cancel, 1 ctx deadline, 2 async Cancel, 3 enclosing Timeout
 				at := time.Duration(rng.Intn(1500)) * time.Microsecond
 				var fbCalls, lateStarts atomic.Int32
@@ -630,6 +661,11 @@ func stressCancel(seed int64, scale int) int {
 				case 6:
 					bh.TryAcquirePermit() // the bulkhead stays full: every attempt waits for a permit
 					ps, name = []failsafe.Policy[int]{rp, bh}, "retry>bulkhead(full)"
+				case 7:
+					// the limiter encloses the retry: with its first permits taken, the execution waits before the first attempt
+					rl2 := ratelimiter.SmoothBuilderWithMaxRate[int](5 * time.Millisecond).WithMaxWaitTime(time.Second).Build()
+					rl2.TryAcquirePermit()
+					ps, name = []failsafe.Policy[int]{rl2, rp}, "ratelimiter(waiting)>retry"
 				}
 				fnDur := time.Duration(rng.Intn(400)) * time.Microsecond
 				fn := func(e failsafe.Execution[int]) (int, error) {
@@ -728,7 +764,7 @@ func stressFuture(seed int64, scale int) int {
 			cancelled = !r.IsDone()
 			r.Cancel()
 		}
-		readers := 1 + rng.Intn(16)
+		readers := 1 + rng.Intn(48)
 		var wg sync.WaitGroup
 		results := make([]int, readers)
 		errs := make([]error, readers)
